@@ -1248,7 +1248,26 @@ impl<'a> PublicRangeFinder<'a> {
                   }
                 }
               }
-              SymbolDeclKind::Definition(_) => {}
+              SymbolDeclKind::Definition(node) => {
+                // Only the requested members of a namespace are kept, but a
+                // class, function, enum or variable that the namespace is
+                // merged with is emitted as a whole (its range was recorded
+                // above), so what that declaration refers to is needed too.
+                if let Some(node) = node.maybe_ref()
+                  && !node.is_ts_namespace()
+                  && symbol
+                    .decls()
+                    .iter()
+                    .filter_map(|d| d.maybe_node())
+                    .any(|n| n.is_ts_namespace())
+                {
+                  pending_traces.maybe_add_id_trace(
+                    symbol_id,
+                    referrer_id,
+                    Namespaces::both(),
+                  );
+                }
+              }
             }
           }
 
